@@ -104,6 +104,18 @@ def check_case(ctx, case):
             if not G.close(float(td[i]), wv, tol):
                 ctx.violation(name + ":simulated:mismatch", {"got": float(td[i]), "want": wv})
                 break
+        # injected numbers may put several events into one bin: the scores depend only on which bins are active
+        if n_act >= 2 and U[0]:
+            U2 = [[row[0]] + row[:-1] for row in U[:1]]          # first draw repeated: one bin holds two events, one active bin fewer
+            o2 = call(fn, fore, S.catalog(region), num_simulations=1, random_numbers=numpy.array(U2, dtype=float).reshape(1, n_act))
+            if not o2.ok:
+                ctx.unexpected(o2, name + ":duplicate_bin_draws")
+            else:
+                c = counts_of([B[0][0]] + B[0][:-1], len(weights))
+                wv, tol = G.binary_ll(weights, c) if kind == "binary" else (G.brier(weights, c), 1e-12)
+                got2 = float(list(o2.value.test_distribution)[0])
+                if not G.close(got2, wv, tol):
+                    ctx.violation(name + ":simulated:depends_on_event_count_not_activity", {"got": got2, "want": wv, "counts_max": max(c)})
 
 
 def nontrivial(case):
